@@ -44,6 +44,13 @@ def spaces():
                     bad.append(b_)
             out["%s-%s" % (bname, cname)] = (lambda clist=clist, lo=lo, hi=hi: BoxPortfolio(clist, lo, hi), good, bad, denote, "weight", True)
         if cname == "nocash":
+            # per-contract (array) bounds: A long-only [0,1], B short-only [-1,0]; the malformed actions lie inside the
+            # overall envelope [-1, 1] but outside their own contract's bound
+            lo_a, hi_a = np.array([0.0, -1.0]), np.array([1.0, 0.0])
+            good = [np.array([0.5, -0.5]), np.array([1.0, 0.0]), np.array([0.0, 0.0]), np.array([0.0, -1.0]), [0.25, -0.75]]
+            bad = [np.array([-0.5, 0.5]), np.array([0.5, 0.5]), np.array([-0.1, -0.5]), np.array([1.0, np.nextafter(0.0, 1.0)]),
+                   np.array([np.nan, -0.5]), np.array([0.5]), None]
+            out["boxarr-nocash"] = (lambda clist=clist, lo_a=lo_a, hi_a=hi_a: BoxPortfolio(clist, lo_a, hi_a), good, bad, denote, "weight", True)
             good = [np.array([2.0, 3.0]), np.array([2.7, 0.0]), np.array([8.0, 7.9]), [0, 1]]
             bad = [np.array([8.5, 0.0]), np.array([-1.0, 1.0]), np.array([np.nan, 1.0]), np.array([1.0]), None, np.array([[1.0, 1.0]])]
             out["lots-nocash"] = (lambda clist=clist: BoxPortfolio(clist, 0.0, 8.0, as_weights=False, fractional=False), good, bad, denote, "nr-contracts", False)
